@@ -25,6 +25,26 @@ KEY_LATEST = "C05:latest-is-lexicographic-max"
 KEY_AGG = "C05:aggregate-order-lexicographic"
 KEY_MAP = "C05:map-placeholder-lexicographic-max"
 KEY_REPL_CARRIED = "C05:replicated-carried-producer-unknown-at-next-iteration"
+KEY_SEQ_SUB = "C05:import-rewrite-substitutes-references-sequentially"
+KEY_NAMESAKE = "C05:looped-component-matched-by-name-ignoring-stage"
+
+
+def sequential_substitution(plan, prefix="-v ", suffix=" --tag=%(loopIteration)s"):
+    """the argument string if every distinct spelled reference (in order of first appearance) is replaced by its
+    correct rewrite with re.sub(r'\\b'+spelling+r'\\b', rewrite, text_so_far, count=1)"""
+    import re
+    text = prefix + " ".join(sp for sp, _ in plan) + suffix
+    done = []
+    for sp, new in plan:
+        if sp in done:
+            continue
+        done.append(sp)
+        text = re.sub(r"\b" + re.escape(sp) + r"\b", new.replace("\\", "\\\\"), text, 1)
+    return text
+
+
+def single_pass_substitution(plan, prefix="-v ", suffix=" --tag=%(loopIteration)s"):
+    return prefix + " ".join(new for _, new in plan) + suffix
 
 
 def classify_exception(shape, exc):
@@ -107,6 +127,9 @@ class ShapeRun:
             f.write(main)
         with open(os.path.join(pkg, "conf", "dowhile.yaml"), "w") as f:
             f.write(dw)
+        if self.shape.get("twin"):
+            with open(os.path.join(pkg, "conf", "twin.yaml"), "w") as f:
+                f.write(G.render_twin(self.shape))
         self.root = root
         os.chdir(root)
         package = experiment.model.storage.ExperimentPackage.packageFromLocation(pkg)
@@ -114,8 +137,11 @@ class ShapeRun:
         self.g = self.exp.experimentGraph
         self.inst = self.exp.instanceDirectory.location
         docs = self.g._documents["DoWhile"]
-        assert len(docs) == 1, docs.keys()
-        self.dw_id = list(docs.keys())[0]
+        self.dw_id = "stage%d.%s" % (self.shape["S"], self.shape["dw_name"])
+        self.twin_id = None
+        if self.shape.get("twin"):
+            self.twin_id = "stage%d.%s" % (self.shape["twin"]["stage"], self.shape["twin"]["name"])
+        assert sorted(docs.keys()) == sorted(x for x in (self.dw_id, self.twin_id) if x), docs.keys()
 
     def workdir(self, stage, name):
         return os.path.join(self.inst, "stages", "stage%d" % stage, name)
@@ -190,11 +216,25 @@ class ShapeRun:
                     args = (conf.get("command", {}).get("arguments") or "").split()
                     got_tok = sorted((G.parse_ref(x, st) for x in args if ":" in x and not x.startswith("-")), key=repr)
                     w.count("clause_arguments")
-                    if got_tok != sorted(exp_in, key=repr):
-                        self.viol("arguments", k, "instance %s has argument references %s expected %s" % (
-                            node, got_tok, sorted(exp_in, key=repr)),
-                                  {"node": node, "got": got_tok, "expected": sorted(exp_in, key=repr),
-                                   "arguments": " ".join(args)})
+                    exp_tok = list(exp_in)
+                    plain_comp = not t.is_repl(nm) and not c["aggregate"]
+                    if plain_comp and c.get("dup") is not None:
+                        exp_tok.append(exp_in[c["dup"]])
+                        w.count("clause_arguments_repeated_token")
+                    if plain_comp and it > 0 and any(x.get("spelling") == "rel" for x in c["intra"]):
+                        w.count("clause_arguments_relative_spelling_it_gt_0")
+                    if got_tok != sorted(exp_tok, key=repr):
+                        key = None
+                        if plain_comp:
+                            # classifier: the text is exactly what substituting the references ONE AFTER THE OTHER
+                            # (first occurrence only, in the text produced so far) yields
+                            plan = t.arg_plan(nm, it)
+                            if sequential_substitution(plan) == " ".join(args) != single_pass_substitution(plan):
+                                key = KEY_SEQ_SUB
+                        self.viol("arguments", k, "instance %s has arguments %r, reference tokens %s expected %s" % (
+                            node, " ".join(args), got_tok, sorted(exp_tok, key=repr)),
+                                  {"node": node, "got": got_tok, "expected": sorted(exp_tok, key=repr),
+                                   "arguments": " ".join(args)}, key)
 
         # (3) placeholder metadata
         for p_id, nm, sfx in t.placeholder_ids():
@@ -229,6 +269,10 @@ class ShapeRun:
                 key = None
                 if k >= 10 and got is not None and tuple(got) == (t.stage(nm), "%d#%s%s" % (lex_max(k), nm, sfx)):
                     key = KEY_MAP
+                tw0 = self.shape.get("twin")
+                if tw0 and got is not None and nm == tw0["cond"] and got[0] == tw0["stage"] and iter_of(got[1]) is not None \
+                        and 0 <= iter_of(got[1]) <= t.twin_iters(k) and got[1].split("#", 1)[1] == nm:
+                    key = KEY_NAMESAKE      # the namesake of the package's second loop was returned
                 self.viol("map_placeholder", k, "map_placeholder_id_to_iteration(%s) = %s expected %s" % (
                     (t.stage(nm), nm + sfx), got, exp_m), {"got": got, "expected": list(exp_m)}, key)
 
@@ -240,8 +284,62 @@ class ShapeRun:
             w.count("clause_state_k_ge_10")
         got_c = G.parse_ref(st["currentCondition"], S)
         if st["currentIteration"] != k or got_c != ec:
+            key = None
+            tw0 = self.shape.get("twin")
+            if tw0 and got_c[0] == tw0["stage"] and got_c[1] == "%d#%s" % (st["currentIteration"], tw0["cond"]) \
+                    and 0 <= st["currentIteration"] <= t.twin_iters(k):
+                key = KEY_NAMESAKE
             self.viol("state", k, "DoWhile state %s expected iteration %d condition %s" % (st, k, ec),
-                      {"got": st, "expected": {"currentIteration": k, "currentCondition": list(ec)}})
+                      {"got": st, "expected": {"currentIteration": k, "currentCondition": list(ec)}}, key)
+
+        # (4b) the second loop of the package (namesake condition component in another stage)
+        tw = self.shape.get("twin")
+        if tw:
+            T, tk = tw["stage"], t.twin_iters(k)
+            main_cond_stage = t.stage(self.shape["cond"]["comp"])
+            w.count("clause_twin_state")
+            st2 = g._documents["DoWhile"][self.twin_id]["state"]
+            ec2 = (T, "%d#%s" % (tk, tw["cond"]), None, "output")
+            got2 = G.parse_ref(st2["currentCondition"], T)
+            if st2["currentIteration"] != tk or got2 != ec2:
+                key = None
+                # classifier: the state was taken from the NAMESAKE component of the other loop (right name, the
+                # other loop's stage, an iteration that the other loop really has)
+                if got2[0] == main_cond_stage and got2[1] == "%d#%s" % (st2["currentIteration"], tw["cond"]) \
+                        and 0 <= st2["currentIteration"] <= k and got2[2:] == (None, "output"):
+                    key = KEY_NAMESAKE
+                self.viol("twin_state", k, "second DoWhile %s state %s expected iteration %d condition %s" % (
+                    self.twin_id, st2, tk, ec2), {"got": st2, "expected": {"currentIteration": tk, "currentCondition": list(ec2)},
+                                                  "namesake_stage": main_cond_stage}, key)
+            for nm2 in (tw["cond"], tw["work"]):
+                p_id = "stage%d.%s" % (T, nm2)
+                ph = g._placeholders.get(p_id)
+                w.count("clause_twin_placeholder")
+                exp_rep = sorted("stage%d.%d#%s" % (T, i, nm2) for i in range(tk + 1))
+                if ph is None or sorted(ph["represents"]) != exp_rep or ph["latest"] != "stage%d.%d#%s" % (T, tk, nm2):
+                    self.viol("twin_placeholder", k, "placeholder %s is %s expected instances 0..%d" % (p_id, ph, tk),
+                              {"placeholder": p_id, "got": ph, "expected_represents": exp_rep})
+            for i in range(tk + 1):
+                node = "stage%d.%d#%s" % (T, i, tw["work"])
+                got_refs = sorted(set(G.parse_ref(x, T) for x in g.dataReferencesForNode(node)), key=repr)
+                exp_refs = [(T, "%d#%s" % (i, tw["cond"]), None, "ref")]
+                w.count("clause_twin_wiring")
+                if got_refs != exp_refs or sorted(g.graph.predecessors(node)) != ["stage%d.%d#%s" % (T, i, tw["cond"])]:
+                    self.viol("twin_wiring", k, "%s reads %s / %s expected %s" % (
+                        node, got_refs, sorted(g.graph.predecessors(node)), exp_refs), {"node": node, "got": got_refs})
+            # flowir.map_placeholder_id_to_iteration for both namesakes
+            ids = g._concrete.get_component_identifiers(True)
+            for stage_q, exp_it in ((T, tk), (main_cond_stage, k)):
+                got = MF.map_placeholder_id_to_iteration((stage_q, tw["cond"]), [], ids)
+                w.count("clause_twin_map_placeholder")
+                if got is None or tuple(got) != (stage_q, "%d#%s" % (exp_it, tw["cond"])):
+                    other = main_cond_stage if stage_q == T else T
+                    other_it = k if stage_q == T else tk
+                    key = KEY_NAMESAKE if (got is not None and got[0] == other and iter_of(got[1]) is not None
+                                           and 0 <= iter_of(got[1]) <= other_it
+                                           and got[1].split("#", 1)[1] == tw["cond"]) else None
+                    self.viol("twin_map_placeholder", k, "map_placeholder_id_to_iteration((%d, %r)) = %s expected iteration %d" % (
+                        stage_q, tw["cond"], got, exp_it), {"got": got, "stage": stage_q}, key)
 
         # (5) what references from outside the loop resolve to
         for cons in self.shape["consumers"]:
@@ -343,6 +441,10 @@ class ShapeRun:
             # exactly what Controller._instantiate_next_dowhile_iteration does
             self.g.instantiate_dowhile_next_iteration(dw_node["document"], k, True)
             self.materialise(k)
+            if self.twin_id and k % 2 == 0:
+                tw_node = self.g._documents["DoWhile"][self.twin_id]
+                self.g.instantiate_dowhile_next_iteration(tw_node["document"], self.truth.twin_iters(k), True)
+                self.w.count("twin_iterations_instantiated")
             ok = self.observe(k)
         return ok
 
@@ -352,7 +454,10 @@ def class_key(shape):
     nrep = [c["replicate"] for c in body if c.get("replicate") is not None]
     return "S%d|body%d.maxoff%d|rep%s%s%s|carried%d|inv%d|cons%s|cond%s%s" % (
         shape["S"], len(body), max(c["off"] for c in body), nrep[0] if nrep else "-",
-        "v" if shape.get("repl_via_var") else "", "+carried" if shape.get("repl_carried") else "",
+        "v" if shape.get("repl_via_var") else "", ("+carried" if shape.get("repl_carried") else "") +
+        ("+combo" if shape.get("combo") else "") + ("+twin" if shape.get("twin") else "") +
+        ("+dup" if any(c.get("dup") is not None for c in body) else "") +
+        ("+rel" if any(x.get("spelling") == "rel" for c in body for x in c["intra"]) else ""),
         sum(1 for b in shape["bindings"].values() if b["loop"]),
         sum(1 for b in shape["bindings"].values() if not b["loop"]),
         ",".join(sorted(set(c["method"] for c in shape["consumers"]))),
@@ -428,12 +533,13 @@ def main():
                         "body size and max stage offset, replication, #carried/#invariant bindings, outside reference methods, "
                         "condition placement) among shapes that were unrolled to K; non-trivial = K >= 10",
                    assumptions=[
-                       "names are mutually substring-free and every reference occurs once per argument string "
-                       "(textual substitution of spellings belongs to C03/C10)",
+                       "names are mutually substring-free (textual substitution during replication / resolveArguments "
+                       "belongs to C03/C10); repeated tokens and relative spellings only in non-replicated components",
                        "loop-carried producers sit in a body stage <= their consumer's; a replicated producer is only carried "
                        "into the replicated head of the same chain; replication inside the loop is the "
                        "replicate -> [follower] -> aggregate chain only",
-                       ":loopref/:loopoutput are only used by consumers outside the loop; one DoWhile per package",
+                       ":loopref/:loopoutput are only used by consumers outside the loop; at most two DoWhile documents per "
+                       "package (the second is a fixed two-component loop with a namesake condition component)",
                        "outputs of instances are materialised by the harness at stages/stage<N>/<instance>/ "
                        "(out.stdout, res.txt) as the engine would have produced them",
                        "iterations are requested the way Controller._instantiate_next_dowhile_iteration does "
